@@ -173,9 +173,12 @@ theorem encodeValues_eq (m : QMap) :
 /-- **query_merge_spec**: an origin that parses the final raw query reads the pairs of the raw
 query of the URL, followed by exactly `specPairs` — every key/value of the merged maps once, each
 decoded to the caller's bytes, request-level keys replacing client-level keys. (`none` on both
-sides when the caller's own raw query has a malformed escape.) -/
+sides when the caller's own raw query has a malformed escape. Odd corner of the code, kept: a raw
+query made of white space only counts as absent — `util.IsStringEmpty` — and is replaced.) -/
 theorem query_merge_spec (raw : Bytes) (cq rq : QMap) :
-    parseQuery (mergeRawQuery raw cq rq) = (parseQuery raw).map (· ++ specPairs cq rq) := by
+    parseQuery (mergeRawQuery raw cq rq) =
+      if !(mergedQuery cq rq).isEmpty && allSpace raw then some (specPairs cq rq)
+      else (parseQuery raw).map (· ++ specPairs cq rq) := by
   unfold mergeRawQuery
   simp only
   split
@@ -185,15 +188,18 @@ theorem query_merge_spec (raw : Bytes) (cq rq : QMap) :
       have : mergedQuery cq rq = [] := by simpa using hq
       rw [this]; simp [isortBy]
     rw [this]
+    simp only [hq, Bool.not_true, Bool.false_and, Bool.false_eq_true, if_false]
     cases parseQuery raw <;> simp
   next hq =>
+    have hq' : (mergedQuery cq rq).isEmpty = false := by simpa using hq
     split
     next hraw =>
-      have : raw = [] := by simpa using hraw
-      subst this
-      rw [encodeValues_eq, parseQuery_join, parseQuery_nil]
+      simp only [hq', hraw, Bool.not_false, Bool.and_self, if_true]
+      rw [encodeValues_eq, parseQuery_join]
       rfl
     next hraw =>
+      have hraw' : allSpace raw = false := by simpa using hraw
+      simp only [hq', hraw', Bool.not_false, Bool.and_false, Bool.false_eq_true, if_false]
       rw [List.append_assoc, List.singleton_append, parseQuery_append, encodeValues_eq,
         parseQuery_join]
       cases parseQuery raw <;> rfl
